@@ -275,3 +275,4 @@ if __name__ == "__main__":
             if bad < 5:
                 print("ECHO", k, r)
     print("echo requests", len(reqs), "non-zero codes", bad)
+    lab.remove()
